@@ -433,6 +433,7 @@ def cmd_check(pid, tier, seed, jobs):
             "discharged": total.discharged + sum(1 for lr in lemma_results if lr["result"] == "unsat"),
             "paths_by_status": status_counts,
             "instances": len(instances),
+            "instance_parameters": [json.dumps(i, sort_keys=True) for i in instances][:400],
             "vacuity_paths_reaching_each_obligation": reached,
             "functions_encoded": cov.names(),
             "source_digests": source_digests(src_root),
